@@ -385,7 +385,7 @@ func checkC06(r *mon.Run) {
 			}
 			r.Count("cases_ok", 1)
 			r.Distinct(fmt.Sprintf("%s|%s|%#x|%s", tzName, c.Name, c.Attrs, c.PKind))
-			if idx == 1 {
+			if idx <= 2 || res.Slow {
 				r.Sample(map[string]any{"tz": tzName, "zone": res.Zone, "zone_offset_s": res.ZoneOff, "name": c.Name, "attrs": c.Attrs, "payload": c.PKind, "timestamp": fmt.Sprintf("%04d-%02d-%02d %02d:%02d:%02d", t.Year, t.Month, t.Day, t.Hour, t.Minute, t.Second), "dwLength": a.Cert.Length, "output_len": len(res.Out)})
 			}
 		}
